@@ -115,8 +115,10 @@ def chunk_oracle(pieces, size, chunks):
 
 
 def native_buffered(pieces, size):
+    """chunks of the REAL generator; a generator that does not stop after more chunks than input
+    pieces (+1) is cut there (the oracle then rejects the result)"""
     s = E.TemplateStream(iter(list(pieces)))
-    return list(s._buffered_generator(size))
+    return list(itertools.islice(s._buffered_generator(size), len(pieces) + 2))
 
 
 def search_buffered_counterexample(max_len=7, sizes=(2, 3, 4, 5)):
@@ -148,6 +150,45 @@ def replay_buffered(w):
 # =====================================================================================
 # C10.buffered : TemplateStream._buffered_generator, unbounded
 # =====================================================================================
+
+def local_roles(target):
+    """Names of the locals of _buffered_generator by role, read off the real AST (so that renaming a
+    local is harmless): buf = the local bound to an empty list display, counter = the local initialised
+    to the constant 0, piece = the local bound to a next(...) call.  Every other name assigned in a loop
+    is havoced as an opaque value."""
+    import ast
+    from pyvc import extract
+    node, _ = extract.function_ast(extract.resolve(target))
+    roles = {"buf": "buf", "counter": "c_size", "piece": "c"}
+    found = set()
+    for sub in ast.walk(node):
+        tgt = val = None
+        if isinstance(sub, ast.Assign) and len(sub.targets) == 1 and isinstance(sub.targets[0], ast.Name):
+            tgt, val = sub.targets[0].id, sub.value
+        elif isinstance(sub, ast.AnnAssign) and isinstance(sub.target, ast.Name) and sub.value is not None:
+            tgt, val = sub.target.id, sub.value
+        if tgt is None:
+            continue
+        if isinstance(val, ast.List) and not val.elts and "buf" not in found:
+            roles["buf"] = tgt
+            found.add("buf")
+        elif isinstance(val, ast.Constant) and val.value == 0 and type(val.value) is int and "counter" not in found:
+            roles["counter"] = tgt
+            found.add("counter")
+        elif isinstance(val, ast.Call) and isinstance(val.func, ast.Name) and val.func.id == "next" and "piece" not in found:
+            roles["piece"] = tgt
+            found.add("piece")
+    stores = set()
+    for sub in ast.walk(node):
+        if isinstance(sub, (ast.While, ast.For)):
+            for x in ast.walk(sub):
+                if isinstance(x, ast.Name) and isinstance(x.ctx, ast.Store):
+                    stores.add(x.id)
+    havoc = {}
+    for nm in sorted(stores):
+        havoc[nm] = "str" if nm == roles["piece"] else ("int" if nm == roles["counter"] else "obj")
+    return roles, havoc
+
 
 class YGhost:
     """Ghost record of the chunks yielded so far: chunk i is the input segment [ys[i], ye[i]) with
@@ -214,6 +255,9 @@ class BufferedGenerator(VC):
     # ---- engine configuration ---------------------------------------------------------
     def configure(self, I):
         c = self
+        roles, havoc_names = local_roles(self.target)
+        BUF, CSIZE = roles["buf"], roles["counter"]
+        c.BUF = BUF
 
         def ev_yield(e, st, fr):
             def f(s, v):
@@ -264,10 +308,10 @@ class BufferedGenerator(VC):
             st = ctx.st
             Y = st.ghost["Y"]
             cur = c.cur(st)
-            barr, bn, _ = A.list_terms(st, ctx.local("buf"))
+            barr, bn, _ = A.list_terms(st, ctx.local(BUF))
             seg, val, cnts = c.chunk_facts(Y, cur, final=False)
             return [
-                bn == 0, to_term(ctx.local("c_size"), "int") == 0, Y.pos == cur, 0 <= cur, cur <= c.R.n,
+                bn == 0, to_term(ctx.local(CSIZE), "int") == 0, Y.pos == cur, 0 <= cur, cur <= c.R.n,
                 Y.ny >= 0, z3.If(Y.ny > 0, z3.Select(Y.ye, Y.ny - 1) == Y.pos, Y.pos == 0),
                 seg, val, cnts,
                 Y.text == c.J(Y.pos),
@@ -281,9 +325,9 @@ class BufferedGenerator(VC):
             st = ctx.st
             Y = st.ghost["Y"]
             cur = c.cur(st)
-            h = st.get(ctx.local("buf"))
-            barr, bn, bk = A.list_terms(st, ctx.local("buf"))
-            cs = to_term(ctx.local("c_size"), "int")
+            h = st.get(ctx.local(BUF))
+            barr, bn, bk = A.list_terms(st, ctx.local(BUF))
+            cs = to_term(ctx.local(CSIZE), "int")
             j = z3.Int(fresh_name("bj"))
             out = [
                 0 <= Y.pos, Y.pos <= cur, cur <= c.R.n,
@@ -300,11 +344,11 @@ class BufferedGenerator(VC):
             c.havoc_buf(st, local)
 
         qn = "TemplateStream._buffered_generator"
-        I.loops[(qn, 0)] = LoopSpec(outer_inv, havoc={"c": "str", "c_size": "int"}, heap=outer_heap, name="chunk_loop")
-        I.loops[(qn, 1)] = LoopSpec(inner_inv, havoc={"c": "str", "c_size": "int"}, heap=inner_heap, name="fill_loop")
+        I.loops[(qn, 0)] = LoopSpec(outer_inv, havoc=dict(havoc_names), heap=outer_heap, name="chunk_loop")
+        I.loops[(qn, 1)] = LoopSpec(inner_inv, havoc=dict(havoc_names), heap=inner_heap, name="fill_loop")
 
     def havoc_buf(self, st, local):
-        h = st.get(local["buf"])
+        h = st.get(local[self.BUF])
         h.items = None
         h.arr = z3.Const(fresh_name("buf_arr"), ArrS)
         h.n = z3.Int(fresh_name("buf_n"))
@@ -388,11 +432,1558 @@ class BufferedGenerator(VC):
         return replay_buffered(w)
 
 
-TASKS = [BufferedGenerator()]
+
+
+# =====================================================================================
+# native oracle for the entry points (REAL code; used by replays and bounded stand-ins)
+# =====================================================================================
+
+class Boom(Exception):
+    """raised by the stand-in render function of the native oracle"""
+
+
+def native_template(pieces, log, raise_at=None):
+    """A real Template of a real Environment whose root render function yields `pieces`
+    (and records the context it is called with)."""
+    env = jinja2.Environment()
+    env.globals["g0"] = "global"
+    t = env.from_string("")
+
+    def root(ctx):
+        log.append(ctx)
+        for i, p in enumerate(pieces):
+            if raise_at is not None and i == raise_at:
+                raise Boom("render function failed")
+            yield p
+        if raise_at is not None and raise_at >= len(pieces):
+            raise Boom("render function failed")
+
+    t.root_render_func = root
+    return env, t
+
+
+def call_shape(nargs, nkw):
+    args = tuple({"a%d" % i: i, "shared_key": "from_arg%d" % i} for i in range(nargs))
+    kwargs = {"k%d" % i: 10 + i for i in range(nkw)}
+    if nkw:
+        kwargs["shared_key"] = "from_kw"
+    return args, kwargs
+
+
+def context_view_error(t, ctx, vars, shared=False, locals=None):
+    """docs of Template.new_context: the vars are passed to the template, the globals are added
+    unless `shared`, `locals` are added for internal usage"""
+    want = dict(vars or {}) if shared else {**dict(t.globals), **dict(vars or {})}
+    for k, v in (locals or {}).items():
+        if v is not U.missing:
+            want[k] = v
+    got = dict(ctx.get_all())
+    if got != want:
+        return f"context holds {got!r}, expected {want!r}"
+    if ctx.name != t.name or ctx.environment is not t.environment or ctx.blocks.keys() != t.blocks.keys():
+        return "context is not bound to this template/environment"
+    return None
+
+
+class _FileWL:
+    def __init__(self):
+        self.items, self.closed, self.log = ["<prior>"], 0, []
+
+    def write(self, x):
+        self.items.append(x)
+
+    def writelines(self, xs):
+        for x in xs:
+            self.items.append(x)
+
+    def close(self):
+        self.closed += 1
+
+
+class _FileNoWL:
+    def __init__(self):
+        self.items, self.closed = ["<prior>"], 0
+
+    def write(self, x):
+        self.items.append(x)
+
+    def close(self):
+        self.closed += 1
+
+
+def native_check(w):
+    """-> None when the real code behaves as the statement says on this input, else a description."""
+    entry = w["entry"]
+    pieces = pieces_from_pattern(w.get("pattern", "101"))
+    text = "".join(pieces)
+    raise_at = w.get("raise_at")
+    log = []
+    env, t = native_template(pieces, log, raise_at)
+    args, kwargs = call_shape(w.get("nargs", 0), w.get("nkw", 0))
+    size = int(w.get("size", 3))
+
+    def expect_vars():
+        return dict(*args, **kwargs)
+
+    def check_ctx():
+        if len(log) != 1:
+            return f"the render function was called {len(log)} times"
+        return context_view_error(t, log[0], expect_vars())
+
+    if entry in ("render", "generate", "stream"):
+        try:
+            want_vars = expect_vars()
+        except TypeError:
+            want_vars = None
+        try:
+            if entry == "render":
+                got = t.render(*args, **kwargs)
+            elif entry == "generate":
+                got = "".join(t.generate(*args, **kwargs))
+            else:
+                s = t.stream(*args, **kwargs)
+                if type(s) is not E.TemplateStream or s.buffered:
+                    return "stream() did not return an unbuffered TemplateStream"
+                if w.get("buffered"):
+                    s.enable_buffering(size)
+                    chunks = list(itertools.islice(s, len(pieces) + 2))
+                    d = chunk_oracle(pieces, size, chunks)
+                    if d:
+                        return f"stream buffered({size}) over {pieces!r} -> {chunks!r}: {d}"
+                    got = "".join(chunks)
+                else:
+                    items = list(s)
+                    if raise_at is None and items != pieces:
+                        return f"unbuffered stream yields {items!r}, the render function yields {pieces!r}"
+                    got = "".join(items)
+        except Boom:
+            if raise_at is None:
+                return "unexpected exception"
+            return None if len(log) == 1 else "render function not called exactly once"
+        except TypeError:
+            return None if want_vars is None else "TypeError although dict(*args, **kwargs) is well-formed"
+        if want_vars is None:
+            return "no TypeError although dict(*args, **kwargs) is ill-formed"
+        if raise_at is not None:
+            return f"{entry} swallowed the exception of the render function (returned {got!r})"
+        if got != text:
+            return f"{entry}{args + (kwargs,)!r} = {got!r}, concatenation of the render function's pieces = {text!r}"
+        return check_ctx()
+
+    if entry == "new_context" or entry == "module":
+        vars = {"v": 1} if w.get("vars", True) else None
+        shared = bool(w.get("shared", False))
+        locals = {"l_x": 5, "l_m": U.missing} if w.get("locals", False) else None
+        if entry == "new_context":
+            ctx = t.new_context(vars, shared, locals)
+            if type(ctx) is not env.context_class:
+                return "new_context did not return a Context"
+            return context_view_error(t, ctx, vars, shared, locals)
+        m = t.make_module(vars, shared, locals)
+        if len(log) != 1:
+            return f"the render function was called {len(log)} times"
+        d = context_view_error(t, log[0], vars, shared, locals)
+        if d:
+            return d
+        from markupsafe import Markup
+        if list(m._body_stream) != pieces:
+            return f"module body {list(m._body_stream)!r} != {pieces!r}"
+        if str(m) != text:
+            return f"str(module) = {str(m)!r}, expected {text!r}"
+        h = m.__html__()
+        if type(h) is not Markup or str(h) != text:
+            return f"module.__html__() = {h!r}, expected Markup({text!r})"
+        if str(m) != text or len(log) != 1:
+            return "str(module) is not stable"
+        if m.__name__ != t.name:
+            return "module name"
+        return None
+
+    if entry == "module_init":
+        class Ctx:
+            environment = env
+
+            def get_exported(self):
+                return {"e0": 1}
+
+        m = E.TemplateModule(t, Ctx(), pieces)
+        if m._body_stream is not pieces or log or m.e0 != 1 or str(m) != text:
+            return "TemplateModule(template, ctx, body_stream) must keep the given body stream and not render"
+        return None
+
+    if entry == "stream_obj":
+        src = iter(list(pieces))
+        s = E.TemplateStream(src)
+        if s.buffered or s._gen is not src:
+            return "a new TemplateStream must be unbuffered and keep its generator"
+        if iter(s) is not s:
+            return "iter(stream) is not the stream"
+        got = []
+        k = w.get("take", 1)
+        for _ in range(k):
+            try:
+                got.append(next(s))
+            except StopIteration:
+                break
+        if got != pieces[:k]:
+            return f"first {k} unbuffered items {got!r} != {pieces[:k]!r}"
+        try:
+            s.enable_buffering(size)
+            if size <= 1:
+                return f"enable_buffering({size}) did not raise ValueError"
+        except ValueError:
+            if size > 1:
+                return f"enable_buffering({size}) raised ValueError"
+            if s.buffered:
+                return "failed enable_buffering left the stream marked buffered"
+            rest = list(s)
+            return None if rest == pieces[k:] else f"after the failed enable_buffering the stream yields {rest!r}"
+        if not s.buffered:
+            return "enable_buffering did not set .buffered"
+        rest_in = pieces[k:]
+        if w.get("disable_again"):
+            s.disable_buffering()
+            if s.buffered:
+                return "disable_buffering left .buffered set"
+            rest = list(s)
+            return None if rest == rest_in else f"after disable_buffering the stream yields {rest!r}, expected {rest_in!r}"
+        chunks = list(itertools.islice(s, len(rest_in) + 2))
+        d = chunk_oracle(rest_in, size, chunks)
+        return None if d is None else f"enable_buffering({size}) over {rest_in!r} -> {chunks!r}: {d}"
+
+    if entry == "dump":
+        target, enc, errors = w["target"], w.get("encoding"), w.get("errors", "strict")
+        if w.get("nonascii"):
+            # stateless codecs only (no BOM): encoding piece by piece == encoding the whole text
+            tail = "\udc80" if w["nonascii"] == "surrogate" else "é€"
+            pieces = [p + tail if p else p for p in pieces]
+        s = E.TemplateStream(iter(list(pieces)))
+        if w.get("buffered"):
+            s.enable_buffering(size)
+        extra = (enc,) if errors == "strict" else (enc, errors)
+        if target == "path":
+            d = tempfile.mkdtemp(prefix="c10dump")
+            path = os.path.join(d, "out.bin")
+            opened = []
+            real_open = open
+
+            class Spy:
+                def __init__(self, f):
+                    self.f, self.closed_calls, self.writes_after_close = f, 0, 0
+
+                def write(self, x):
+                    if self.closed_calls:
+                        self.writes_after_close += 1
+                    return self.f.write(x)
+
+                def writelines(self, xs):
+                    for x in xs:
+                        self.write(x)
+
+                def close(self):
+                    self.closed_calls += 1
+                    self.f.close()
+
+            def spy_open(*a, **k):
+                sp = Spy(real_open(*a, **k))
+                opened.append((a, k, sp))
+                return sp
+
+            E_open = E.__dict__.get("open")
+            E.open = spy_open
+            try:
+                try:
+                    s.dump(path, *extra)
+                    raised = None
+                except (UnicodeError, LookupError) as ex:
+                    raised = ex
+            finally:
+                if E_open is None:
+                    del E.open
+                else:
+                    E.open = E_open
+            try:
+                if len(opened) != 1:
+                    return f"dump(path) opened {len(opened)} files"
+                a, k, sp = opened[0]
+                if a[0] != path or (a[1:] + (k.get("mode"),))[0] != "wb":
+                    return f"dump(path) opened the file with {a!r} {k!r}, expected (path, 'wb')"
+                if sp.closed_calls != 1 or sp.writes_after_close:
+                    return f"dump(path) closed the file it opened {sp.closed_calls} times (writes after close: {sp.writes_after_close})"
+                data = real_open(path, "rb").read()
+                if raised is None:
+                    want = "".join(pieces).encode(enc or "utf-8", errors)
+                    if data != want:
+                        return f"file holds {data!r}, expected {want!r}"
+                else:
+                    try:
+                        "".join(pieces).encode(enc or "utf-8", errors)
+                        return f"dump raised {raised!r} although the text is encodable"
+                    except (UnicodeError, LookupError):
+                        pass
+                return None
+            finally:
+                import shutil
+                shutil.rmtree(d, ignore_errors=True)
+        f = _FileWL() if target == "wl" else _FileNoWL()
+        try:
+            s.dump(f, *extra)
+            raised = None
+        except (UnicodeError, LookupError) as ex:
+            raised = ex
+        if f.closed:
+            return "dump closed a file object it did not open"
+        if raised is not None:
+            try:
+                [p.encode(enc, errors) for p in pieces]
+                return f"dump raised {raised!r}"
+            except (UnicodeError, LookupError):
+                return None
+        got = f.items
+        if got[:1] != ["<prior>"]:
+            return "dump disturbed what the file already held"
+        got = got[1:]
+        if w.get("buffered"):
+            j = (b"" if enc else "").join(got)
+            want = "".join(pieces).encode(enc, errors) if enc else "".join(pieces)
+            return None if j == want else f"dump wrote {got!r}, expected text {want!r}"
+        want = [p.encode(enc, errors) for p in pieces] if enc else list(pieces)
+        return None if got == want else f"dump wrote {got!r}, expected {want!r} (in order)"
+
+    raise ValueError(f"unknown entry {entry!r}")
+
+
+class C10VC(VC):
+    """VC whose refutations are turned into concrete failing inputs by running the statement's
+    oracle on the real code over a small family of inputs for that entry point."""
+    prop = "C10"
+
+    def native_family(self):
+        return []
+
+    def run(self, tier, seed):
+        rs = super().run(tier, seed)
+        if any(r.status == "refuted" for r in rs):
+            w = None
+            for cand in self.native_family():
+                try:
+                    bad = native_check(cand)
+                except Exception as ex:  # noqa: the real code crashed on a valid input
+                    bad = f"crash: {ex!r}"
+                if bad:
+                    w = cand
+                    break
+            for r in rs:
+                if r.status == "refuted":
+                    r.witness = w
+        return rs
+
+    def replay(self, w):
+        try:
+            d = native_check(w)
+        except Exception as ex:  # noqa
+            import traceback
+            return True, "real code crashed: " + traceback.format_exc()[-300:].replace("\n", " | ")
+        return (d is not None, d or "as specified")
+
+
+PATTERNS = ["", "1", "0", "11", "101", "0110", "11011", "100101"]
+
+
+# =====================================================================================
+# common abstract callees
+# =====================================================================================
+
+def always_raises(name, within=Exception):
+    def handler(I, st, args, kwargs, node):
+        e = Exc(None, (), tag=name, within=within, origin=getattr(node, "lineno", None))
+        e.from_call = name
+        A.call_event(st, name, args, kwargs, e, node)
+        return [(st, Raised(e))]
+
+    return handler
+
+
+def partial_specs(I):
+    """functools.partial(f, *a)(*b) == f(*a, *b)   (dependency spec)"""
+
+    def mk(I_, st, args, kwargs, node):
+        if kwargs:
+            raise Unsupported("partial with keywords", node)
+        return [(st, st.alloc(HObj(functools.partial, fields={"func": args[0], "args": tuple(args[1:])})))]
+
+    def call(I_, st, args, kwargs, node):
+        h = st.get(args[0])
+        return I_.call(st, h.fields["func"], list(h.fields["args"]) + list(args[1:]), kwargs, node)
+
+    I.specs[("fn", id(functools.partial))] = mk
+    I.specs["partial.__call__"] = call
+
+
+def is_partial_next(st, v, it):
+    """v is partial(next, it)"""
+    if not isinstance(v, Ref):
+        return False
+    h = st.get(v)
+    return (isinstance(h, HObj) and h.cls is functools.partial and h.fields.get("func") is next
+            and len(h.fields.get("args", ())) == 1 and h.fields["args"][0] == it)
+
+
+class TemplateEnv:
+    """symbolic Template + Environment and the abstract callees of the rendering entry points"""
+
+    def make(self, st, is_async):
+        self.is_async = is_async
+        self.env = A.obj(st, jinja2.Environment, "environment", fields={"is_async": is_async})
+        self.tname, self.blocks, self.globals_ = sym("t_name", "obj"), sym("t_blocks", "obj"), sym("t_globals", "obj")
+        self.tmpl = A.obj(st, E.Template, "self", fields={
+            "environment": self.env, "name": self.tname, "blocks": self.blocks, "globals": self.globals_})
+        self.R = A.sseq(st, "R", "str")
+        st.assume(*join_base(self.R.arr))
+
+    def install(self, I, new_context_abstract=True):
+        c = self
+        import asyncio
+
+        def dict_spec(I_, st, args, kwargs, node):
+            v = fresh("vars", "obj")
+            A.call_event(st, "dict", args, kwargs, v, node)
+            return [(st, v)]
+
+        I.specs[("fn", id(dict))] = dict_spec
+        if new_context_abstract:
+            I.specs["Template.new_context"] = A.abstract_fn("Template.new_context", returns="obj")
+
+        def root_spec(I_, st, args, kwargs, node):
+            it = st.alloc(HIter(c.R, 0, tag="generator"))
+            A.call_event(st, "root_render_func", args, kwargs, it, node)
+            return [(st, it)]
+
+        I.specs["Template.root_render_func"] = root_spec
+
+        def env_concat(I_, st, args, kwargs, node):
+            """Environment.concat = "".join over an iterator: consumes it; an exception of the
+            generator (any Exception, or a BaseException such as KeyboardInterrupt) passes through"""
+            it = args[1]
+            out = []
+            for cls in (None, KeyboardInterrupt):
+                s = st.fork()
+                e = Exc(cls, (), tag="render_func", within=Exception, origin=getattr(node, "lineno", None))
+                A.call_event(s, "environment.concat", args[1:], kwargs, e, node)
+                out.append((s, Raised(e)))
+            arr, n, kind = A.list_terms(st, it)
+            if isinstance(it, Ref) and isinstance(st.get(it), HIter):
+                h = st.get(it)
+                if not (isinstance(h.cursor, int) and h.cursor == 0):
+                    raise Unsupported("concat of a partially consumed iterator", node)
+                h.cursor = Sym(n, "int")
+            v = Sym(JOIN(arr, n), "str")
+            A.call_event(st, "environment.concat", args[1:], kwargs, v, node)
+            out.append((st, v))
+            return out
+
+        I.specs["Environment.concat"] = env_concat
+        # the module-level concat is the same "".join (C10.tables.concat_is_join)
+        I.specs[("fn", id(E.concat))] = lambda I_, st, args, kwargs, node: env_concat(I_, st, [None] + list(args), kwargs, node)
+        I.specs["Environment.handle_exception"] = always_raises("environment.handle_exception")
+        I.specs[("fn", id(asyncio.run))] = A.abstract_fn("asyncio.run", returns="obj")
+        I.specs["Template.render_async"] = A.abstract_fn("Template.render_async", returns="obj")
+        I.specs["Template.generate_async"] = A.abstract_fn("Template.generate_async", returns="obj")
+
+    # ---- predicates over a path -----------------------------------------------------------
+    def ctx0_ok(self, out, args, kwargs_items):
+        """exactly: d = dict(*args, **kwargs); ctx = self.new_context(d); root_render_func(ctx)"""
+        d = A.calls(out, "dict")
+        nc = A.calls(out, "Template.new_context")
+        rr = A.calls(out, "root_render_func")
+        if len(d) != 1 or len(nc) != 1 or len(rr) != 1:
+            return False
+        if len(d[0].args) != len(args) or any(x is not y for x, y in zip(d[0].args, args)):
+            return False
+        if set(d[0].kwargs) != set(kwargs_items) or any(d[0].kwargs[k] is not v for k, v in kwargs_items.items()):
+            return False
+        if list(nc[0].args[1:]) != [d[0].result] or nc[0].kwargs or nc[0].args[0] != self.tmpl:
+            return False
+        if len(rr[0].args) != 2 or rr[0].args[1] is not nc[0].result or rr[0].kwargs:
+            return False
+        return True
+
+
+SHAPES = [(0, 0), (1, 0), (0, 2), (1, 2)]
+
+
+class EntryVC(C10VC):
+    """render / generate / stream with a concrete call shape (number of positional and keyword
+    arguments) and symbolic argument values"""
+
+    entry = ""
+
+    def __init__(self, nargs, nkw):
+        self.nargs, self.nkw = nargs, nkw
+        VC.__init__(self, "C10", f"C10.Template.{self.entry}[args={nargs},kwargs={nkw}]")
+
+    def native_family(self):
+        for pat in PATTERNS:
+            for ra in (None, 0, 1):
+                for buffered in ((False, True) if self.entry == "stream" else (False,)):
+                    yield {"entry": self.entry, "pattern": pat, "nargs": self.nargs, "nkw": self.nkw,
+                           "raise_at": ra, "buffered": buffered, "size": 2}
+
+    def configure(self, I):
+        self.T = TemplateEnv()
+        self.T.install(I)
+        self.configure_entry(I)
+
+    def configure_entry(self, I):
+        pass
+
+    def setup(self, I, st):
+        self.T.make(st, sym("is_async", "bool"))
+        self.args = tuple(sym(f"arg{i}", "obj") for i in range(self.nargs))
+        self.kw = {f"k{i}": sym(f"kwval{i}", "obj") for i in range(self.nkw)}
+        kwref = st.alloc(HDict(items=dict(self.kw)), initial=True)
+        return "locals", {"self": self.T.tmpl, "args": self.args, "kwargs": kwref}
+
+    def same_call_args(self, ev):
+        """the event was called with (self, *args, **kwargs) exactly"""
+        return (ev.args[0] == self.T.tmpl and len(ev.args) == 1 + len(self.args)
+                and all(x is y for x, y in zip(ev.args[1:], self.args))
+                and ev.kwargs.keys() == self.kw.keys() and all(ev.kwargs[k] is v for k, v in self.kw.items()))
+
+    def is_async_path(self, out):
+        return bool(A.calls(out, "asyncio.run"))
+
+    def p_mode(self, pre, out):
+        """the async variants are used exactly in async mode"""
+        return self.T.is_async.t == z3.BoolVal(self.is_async_path(out))
+
+
+class Render(EntryVC):
+    entry = "render"
+    target = "jinja2.environment:Template.render"
+
+    def p_text(self, pre, out):
+        """render returns the concatenation of R(ctx0)"""
+        if self.is_async_path(out) or out.raised:
+            return None
+        if not self.T.ctx0_ok(out, self.args, self.kw):
+            return False
+        cc = A.calls(out, "environment.concat")
+        if len(cc) != 1 or cc[0].args[0] != A.calls(out, "root_render_func")[0].result:
+            return False
+        if A.calls(out, "environment.handle_exception"):
+            return False
+        if not isinstance(out.value, Sym) or out.value.k != "str":
+            return False
+        return out.value.t == JOIN(self.T.R.arr, self.T.R.n)
+
+    def p_errors(self, pre, out):
+        """an Exception of the render function goes through handle_exception (which re-raises);
+        other exceptions pass; render never returns normally without a result"""
+        if self.is_async_path(out):
+            return None
+        if out.returned:
+            return len(A.calls(out, "environment.concat")) == 1 and not A.calls(out, "environment.handle_exception")
+        tag = out.value.tag
+        he = A.calls(out, "environment.handle_exception")
+        if tag == "environment.handle_exception":
+            cc = A.calls(out, "environment.concat")
+            return len(he) == 1 and len(cc) == 1 and isinstance(cc[0].result, Exc) and cc[0].result.cls is None
+        if tag == "render_func":
+            return out.value.cls is KeyboardInterrupt and not he
+        return False
+
+    def p_async(self, pre, out):
+        """in async mode render() = asyncio.run(render_async(*args, **kwargs))"""
+        if not self.is_async_path(out):
+            return None
+        ra = A.calls(out, "Template.render_async")
+        ar = A.calls(out, "asyncio.run")
+        if len(ra) != 1 or len(ar) != 1 or A.calls(out, "root_render_func"):
+            return False
+        if not self.same_call_args(ra[0]):
+            return False
+        return out.returned and ar[0].args[0] is ra[0].result and out.value is ar[0].result
+
+    posts = [("mode", EntryVC.p_mode), ("text", p_text), ("errors", p_errors), ("async", p_async)]
+
+
+class Generate(EntryVC):
+    entry = "generate"
+    target = "jinja2.environment:Template.generate"
+
+    def configure_entry(self, I):
+        c = self
+
+        def ev_yield_from(e, st, fr):
+            """`yield from it` over an abstract iterator: yields a prefix and raises what the
+            delegate raises, or yields everything that is left"""
+
+            def f(s, v):
+                if not (isinstance(v, Ref) and isinstance(s.get(v), HIter) and isinstance(s.get(v).items, SSeq)):
+                    raise Unsupported("yield from a non-abstract iterable", e)
+                items, start = s.get(v).items, s.get(v).cursor
+                outs = []
+                for cls in (None, KeyboardInterrupt):
+                    s1 = s.fork()
+                    k = z3.Int(fresh_name("prefix"))
+                    s1.assume(to_term(start, "int") <= k, k <= items.n)
+                    s1.get(v).cursor = Sym(k, "int")
+                    s1.yields.append(("from", items, start, k))
+                    outs.append((s1, Raised(Exc(cls, (), tag="render_func", within=Exception, origin=e.lineno))))
+                s.get(v).cursor = Sym(items.n, "int")
+                s.yields.append(("from", items, start, items.n))
+                outs.append((s, None))
+                return outs
+
+            return seq(I.ev(e.value, st, fr), f)
+
+        I.ev_YieldFrom = ev_yield_from
+
+    def yield_text(self, out):
+        """concatenation of everything yielded on this path as a term (None: not expressible)"""
+        parts = []
+        for y in out.st.yields:
+            if isinstance(y, tuple) and y and y[0] == "from":
+                _, items, start, end = y
+                if not (isinstance(start, int) and start == 0):
+                    return None
+                parts.append(JOIN(items.arr, end))
+            elif isinstance(y, str) or (isinstance(y, Sym) and y.k == "str"):
+                parts.append(to_term(y, "str"))
+            else:
+                return None
+        if not parts:
+            return EMPTY
+        return parts[0] if len(parts) == 1 else z3.Concat(*parts)
+
+    def p_text(self, pre, out):
+        """the concatenation of generate() is the concatenation of R(ctx0)"""
+        if self.is_async_path(out) or out.raised:
+            return None
+        if not self.T.ctx0_ok(out, self.args, self.kw) or A.calls(out, "environment.handle_exception"):
+            return False
+        t = self.yield_text(out)
+        if t is None:
+            return False
+        return t == JOIN(self.T.R.arr, self.T.R.n)
+
+    def p_order(self, pre, out):
+        """what generate yielded before a failure is a prefix of R(ctx0), in order"""
+        if self.is_async_path(out) or out.returned:
+            return None
+        ys = out.st.yields
+        if not ys:
+            return True
+        return len(ys) == 1 and isinstance(ys[0], tuple) and ys[0][1] is self.T.R and ys[0][2] == 0
+
+    def p_errors(self, pre, out):
+        if self.is_async_path(out):
+            return None
+        he = A.calls(out, "environment.handle_exception")
+        if out.returned:
+            return not he
+        if out.value.tag == "environment.handle_exception":
+            return len(he) == 1
+        if out.value.tag == "render_func":
+            return out.value.cls is KeyboardInterrupt and not he
+        return False
+
+    posts = [("text", p_text), ("order", p_order), ("errors", p_errors)]
+
+    def setup(self, I, st):
+        r = super().setup(I, st)
+        # the async branch of generate() belongs to C09.entry; here: sync mode
+        st.assume(z3.Not(self.T.is_async.t))
+        return r
+
+
+class Stream(EntryVC):
+    entry = "stream"
+    target = "jinja2.environment:Template.stream"
+
+    def configure_entry(self, I):
+        c = self
+        partial_specs(I)
+        I.inline.add("jinja2.environment:TemplateStream.__init__")
+        I.inline.add("jinja2.environment:TemplateStream.disable_buffering")
+
+        def gen_spec(I_, st, args, kwargs, node):
+            c.G = A.sseq(st, "G", "str")
+            it = st.alloc(HIter(c.G, 0, tag="generator"))
+            A.call_event(st, "Template.generate", args, kwargs, it, node)
+            return [(st, it)]
+
+        I.specs["Template.generate"] = gen_spec
+
+    def p_stream(self, pre, out):
+        """stream(*a, **kw) is an unbuffered TemplateStream over generate(*a, **kw)"""
+        if out.raised:
+            return False
+        g = A.calls(out, "Template.generate")
+        if len(g) != 1 or not self.same_call_args(g[0]):
+            return False
+        v = out.value
+        if not isinstance(v, Ref) or not isinstance(out.st.get(v), HObj) or out.st.get(v).cls is not E.TemplateStream:
+            return False
+        f = out.st.get(v).fields
+        it = g[0].result
+        h = out.st.get(it)
+        return (f.get("_gen") == it and f.get("buffered") is False and is_partial_next(out.st, f.get("_next"), it)
+                and isinstance(h.cursor, int) and h.cursor == 0)
+
+    posts = [("stream", p_stream)]
+
+
+class NewContext(C10VC):
+    target = "jinja2.environment:Template.new_context"
+
+    def __init__(self):
+        VC.__init__(self, "C10", "C10.Template.new_context")
+
+    def native_family(self):
+        for vars, shared, locals in itertools.product((True, False), repeat=3):
+            yield {"entry": "new_context", "vars": vars, "shared": shared, "locals": locals}
+
+    def configure(self, I):
+        self.T = TemplateEnv()
+        self.T.install(I, new_context_abstract=False)
+        I.specs["jinja2.runtime:new_context"] = A.abstract_fn("runtime.new_context", returns="obj")
+
+    def setup(self, I, st):
+        self.T.make(st, sym("is_async", "bool"))
+        self.vars, self.shared, self.locals = sym("vars", "obj"), sym("shared", "obj"), sym("locals", "obj")
+        return [self.T.tmpl, self.vars, self.shared, self.locals], {}
+
+    def p_delegates(self, pre, out):
+        """new_context(vars, shared, locals) = runtime.new_context(environment, name, blocks, vars, shared, globals, locals)"""
+        if out.raised:
+            return False
+        ev = A.calls(out, "runtime.new_context")
+        if len(ev) != 1:
+            return False
+        T = self.T
+        got = list(ev[0].args)
+        names = ["environment", "template_name", "blocks", "vars", "shared", "globals", "locals"]
+        bound = dict(zip(names, got))
+        bound.update(ev[0].kwargs)
+        want = {"environment": T.env, "template_name": T.tname, "blocks": T.blocks, "vars": self.vars,
+                "shared": self.shared, "globals": T.globals_, "locals": self.locals}
+        if bound.keys() != want.keys() or len(got) + len(ev[0].kwargs) != 7:
+            return False
+        for k in want:
+            a, b = bound[k], want[k]
+            if not (a is b or (isinstance(a, Ref) and a == b)):
+                return False
+        return out.value is ev[0].result
+
+    posts = [("delegates", p_delegates)]
+
+
+class MakeModule(C10VC):
+    """make_module + TemplateModule.__init__ (inlined)"""
+    target = "jinja2.environment:Template.make_module"
+
+    def __init__(self):
+        VC.__init__(self, "C10", "C10.Template.make_module")
+
+    def native_family(self):
+        for pat in PATTERNS:
+            for vars, shared, locals in itertools.product((True, False), repeat=3):
+                yield {"entry": "module", "pattern": pat, "vars": vars, "shared": shared, "locals": locals}
+
+    def configure(self, I):
+        c = self
+        self.T = TemplateEnv()
+        self.T.install(I)
+        I.inline.add("jinja2.environment:TemplateModule.__init__")
+
+        def getattr_obj(I_, st, args, kwargs, node):
+            o, name = args
+            nc = [e for e in st.trace if e.kind == "call" and e.name == "Template.new_context"]
+            if name == "environment" and nc and o is nc[-1].result:
+                return [(st, c.T.env)]  # contract of runtime.new_context: the context belongs to the environment passed
+            if name == "environment" and o is getattr(c, "ctx", None):
+                return [(st, c.T.env)]
+            if name == "get_exported":
+                return [(st, BoundMethod(o, name))]
+            return None
+
+        I.specs["getattr_obj"] = getattr_obj
+
+        def method_obj(I_, st, args, kwargs, node):
+            o, name = args[0], args[1]
+            if name == "get_exported":
+                c.exports = {"exp0": fresh("exp0", "obj"), "exp1": fresh("exp1", "obj")}
+                d = st.alloc(HDict(items=dict(c.exports)))
+                A.call_event(st, "Context.get_exported", [o], kwargs, d, node)
+                return [(st, d)]
+            return None
+
+        I.specs["method_obj"] = method_obj
+
+    def setup(self, I, st):
+        self.T.make(st, sym("is_async", "bool"))
+        self.vars, self.shared, self.locals = sym("vars", "obj"), sym("shared", "obj"), sym("locals", "obj")
+        return [self.T.tmpl, self.vars, self.shared, self.locals], {}
+
+    def p_async(self, pre, out):
+        """sync module creation is refused in async mode, before anything is rendered"""
+        if out.raised:
+            if out.value.cls is not RuntimeError or A.calls(out, "root_render_func"):
+                return False
+            return self.T.is_async.t
+        return z3.Not(self.T.is_async.t)
+
+    def p_context(self, pre, out):
+        """ctx = self.new_context(vars, shared, locals); the render function runs once, on ctx"""
+        nc = A.calls(out, "Template.new_context")
+        if len(nc) != 1 or nc[0].kwargs:
+            return False
+        a = nc[0].args
+        if not (len(a) == 4 and a[0] == self.T.tmpl and a[1] is self.vars and a[2] is self.shared and a[3] is self.locals):
+            return False
+        if out.raised:
+            return True
+        rr = A.calls(out, "root_render_func")
+        return len(rr) == 1 and rr[0].args[0] == self.T.tmpl and rr[0].args[1] is nc[0].result and len(rr[0].args) == 2
+
+    def p_body(self, pre, out):
+        """the module stores list(R(ctx)), its exports and its name"""
+        if out.raised:
+            return None
+        v = out.value
+        if not (isinstance(v, Ref) and isinstance(out.st.get(v), HObj) and out.st.get(v).cls is E.TemplateModule):
+            return False
+        f = out.st.get(v).fields
+        b = f.get("_body_stream")
+        if not (isinstance(b, Ref) and isinstance(out.st.get(b), HList)):
+            return False  # must be a list: the body is rendered once, eagerly
+        ge = A.calls(out, "Context.get_exported")
+        if len(ge) != 1 or ge[0].args[0] is not A.calls(out, "Template.new_context")[0].result:
+            return False
+        if any(f.get(k) is not x for k, x in self.exports.items()) or f.get("__name__") is not self.T.tname:
+            return False
+        arr, n, kind = A.list_terms(out.st, b)
+        j = z3.Int(fresh_name("mj"))
+        R = self.T.R
+        return z3.And(n == R.n, z3.ForAll([j], z3.Implies(z3.And(0 <= j, j < n), z3.Select(arr, j) == z3.Select(R.arr, j))))
+
+    posts = [("async_refused", p_async), ("context", p_context), ("body", p_body)]
+
+
+class ModuleInitGiven(C10VC):
+    """TemplateModule(template, ctx, body_stream): keeps the given body stream, renders nothing"""
+    target = "jinja2.environment:TemplateModule.__init__"
+
+    def __init__(self):
+        VC.__init__(self, "C10", "C10.TemplateModule.__init__[body_stream given]")
+
+    def native_family(self):
+        for pat in PATTERNS:
+            yield {"entry": "module_init", "pattern": pat}
+
+    def configure(self, I):
+        MakeModule.configure(self, I)
+
+    def setup(self, I, st):
+        self.T.make(st, sym("is_async", "bool"))
+        self.ctx = sym("ctx", "obj")
+        self.body = A.alist(st, "body", "str")
+        self.mod = st.alloc(HObj(E.TemplateModule), initial=True)
+        return [self.mod, self.T.tmpl, self.ctx, self.body], {}
+
+    def p_kept(self, pre, out):
+        if out.raised:
+            return False
+        f = out.st.get(self.mod).fields
+        h = out.st.get(self.body)
+        hp = pre.get(self.body)
+        return (f.get("_body_stream") == self.body and not A.calls(out, "root_render_func") and h.arr is hp.arr and h.n is hp.n
+                and all(f.get(k) is x for k, x in self.exports.items()) and f.get("__name__") is self.T.tname)
+
+    posts = [("kept", p_kept)]
+
+
+class ModuleText(C10VC):
+    """TemplateModule.__str__ / __html__ = concat(_body_stream) (as Markup for __html__)"""
+
+    def __init__(self, which):
+        self.which = which
+        self.target = f"jinja2.environment:TemplateModule.{which}"
+        VC.__init__(self, "C10", f"C10.TemplateModule.{which}")
+
+    def native_family(self):
+        for pat in PATTERNS:
+            yield {"entry": "module", "pattern": pat}
+
+    def configure(self, I):
+        def concat_spec(I_, st, args, kwargs, node):
+            arr, n, kind = A.list_terms(st, args[0])
+            if kind != "str":
+                raise Unsupported("concat of a non-string sequence", node)
+            v = Sym(JOIN(arr, n), "str")
+            st.assume(JOIN(arr, 0) == EMPTY)
+            A.call_event(st, "concat", args, kwargs, v, node)
+            return [(st, v)]
+
+        I.specs[("fn", id(E.concat))] = concat_spec
+        from markupsafe import Markup
+
+        def markup_spec(I_, st, args, kwargs, node):
+            a = args[0]
+            if not (isinstance(a, Sym) and a.k == "str") or len(args) != 1:
+                raise Unsupported("Markup() of a non-string", node)
+            v = Sym(a.t, "str", a.tags | {"markup"})
+            A.call_event(st, "Markup", args, kwargs, v, node)
+            return [(st, v)]
+
+        I.specs[("fn", id(Markup))] = markup_spec
+
+    def setup(self, I, st):
+        self.body = A.alist(st, "body", "str")
+        h = st.get(self.body)
+        self.arr, self.n = h.arr, h.n
+        st.assume(*join_base(self.arr))
+        self.mod = A.obj(st, E.TemplateModule, "module", fields={"_body_stream": self.body})
+        return [self.mod], {}
+
+    def p_text(self, pre, out):
+        if out.raised:
+            return False
+        v = out.value
+        if not (isinstance(v, Sym) and v.k == "str"):
+            return False
+        if ("markup" in v.tags) != (self.which == "__html__"):
+            return False
+        h = out.st.get(self.body)
+        if h.arr is not self.arr or h.n is not self.n or out.st.written:
+            return False  # the stored body is not modified
+        return v.t == JOIN(self.arr, self.n)
+
+    posts = [("text", p_text)]
+
+
+# =====================================================================================
+# TemplateStream: __init__, __next__, disable_buffering, enable_buffering
+# =====================================================================================
+
+class StreamObj(C10VC):
+    def native_family(self):
+        for pat in PATTERNS:
+            for size in (-1, 0, 1, 2, 3):
+                for take in (0, 1, 2):
+                    for dis in (False, True):
+                        yield {"entry": "stream_obj", "pattern": pat, "size": size, "take": take, "disable_again": dis}
+
+    def configure(self, I):
+        partial_specs(I)
+        self.configure_more(I)
+
+    def configure_more(self, I):
+        pass
+
+    def mk_stream(self, st, **fields):
+        self.Q = A.sseq(st, "Q", "str")
+        self.k0 = z3.Int("cursor0")
+        st.assume(0 <= self.k0, self.k0 <= self.Q.n)
+        self.gen = st.alloc(HIter(self.Q, Sym(self.k0, "int"), tag="generator"), initial=True)
+        f = {"_gen": self.gen}
+        f.update(fields)
+        self.stream = st.alloc(HObj(E.TemplateStream, fields=f), initial=True)
+        return self.stream
+
+    def only_written(self, out, names):
+        return all(i != self.stream.id or f in names for (i, f) in out.st.written)
+
+    def gen_untouched(self, out):
+        h = out.st.get(self.gen)
+        return isinstance(h.cursor, Sym) and h.cursor.t is self.k0 or (isinstance(h.cursor, Sym) and z3.eq(h.cursor.t, self.k0))
+
+
+class StreamInit(StreamObj):
+    target = "jinja2.environment:TemplateStream.__init__"
+
+    def __init__(self):
+        VC.__init__(self, "C10", "C10.TemplateStream.__init__")
+
+    def configure_more(self, I):
+        I.inline.add("jinja2.environment:TemplateStream.disable_buffering")
+
+    def setup(self, I, st):
+        self.mk_stream(st)
+        st.get(self.stream).fields.clear()
+        return [self.stream, self.gen], {}
+
+    def p_init(self, pre, out):
+        """a new stream keeps its generator, is unbuffered, and its next item is next(generator)"""
+        if out.raised:
+            return False
+        f = out.st.get(self.stream).fields
+        return (f.get("_gen") == self.gen and f.get("buffered") is False and is_partial_next(out.st, f.get("_next"), self.gen)
+                and self.gen_untouched(out) and set(f) == {"_gen", "buffered", "_next"})
+
+    posts = [("init", p_init)]
+
+
+class DisableBuffering(StreamObj):
+    target = "jinja2.environment:TemplateStream.disable_buffering"
+
+    def __init__(self):
+        VC.__init__(self, "C10", "C10.TemplateStream.disable_buffering")
+
+    def setup(self, I, st):
+        other = st.alloc(HIter(A.sseq(st, "B", "str"), 0, tag="generator"), initial=True)
+        p = st.alloc(HObj(functools.partial, fields={"func": next, "args": (other,)}), initial=True)
+        self.mk_stream(st, buffered=sym("buffered", "bool"), _next=p)
+        return [self.stream], {}
+
+    def p_disable(self, pre, out):
+        if out.raised:
+            return False
+        f = out.st.get(self.stream).fields
+        return (f.get("_gen") == self.gen and f.get("buffered") is False and is_partial_next(out.st, f.get("_next"), self.gen)
+                and self.gen_untouched(out) and self.only_written(out, {"buffered", "_next"}))
+
+    posts = [("disable", p_disable)]
+
+
+class EnableBuffering(StreamObj):
+    target = "jinja2.environment:TemplateStream.enable_buffering"
+
+    def __init__(self):
+        VC.__init__(self, "C10", "C10.TemplateStream.enable_buffering")
+
+    def configure_more(self, I):
+        c = self
+
+        def bg(I_, st, args, kwargs, node):
+            it = st.alloc(HIter(A.sseq(st, "chunks", "str"), 0, tag="generator"))
+            A.call_event(st, "_buffered_generator", args, kwargs, it, node)
+            return [(st, it)]
+
+        I.specs["TemplateStream._buffered_generator"] = bg
+
+    def setup(self, I, st):
+        p = st.alloc(HObj(functools.partial, fields={"func": next, "args": ()}), initial=True)
+        self.mk_stream(st, buffered=False)
+        st.get(p).fields["args"] = (self.gen,)
+        st.get(self.stream).fields["_next"] = p
+        self.p0 = p
+        self.size = sym("size", "int")
+        return [self.stream, self.size], {}
+
+    def p_guard(self, pre, out):
+        """size <= 1 raises ValueError and leaves the stream as it was"""
+        if out.raised:
+            if out.value.cls is not ValueError or A.calls(out, "_buffered_generator"):
+                return False
+            f = out.st.get(self.stream).fields
+            if f.get("buffered") is not False or f.get("_next") != self.p0 or not self.only_written(out, set()):
+                return False
+            return self.size.t <= 1
+        return self.size.t >= 2
+
+    def p_enable(self, pre, out):
+        """afterwards the stream is buffered and its next item is the next chunk of _buffered_generator(size)"""
+        if out.raised:
+            return None
+        f = out.st.get(self.stream).fields
+        ev = A.calls(out, "_buffered_generator")
+        if len(ev) != 1 or len(ev[0].args) + len(ev[0].kwargs) != 2 or ev[0].args[0] != self.stream:
+            return False
+        sz = ev[0].args[1] if len(ev[0].args) > 1 else ev[0].kwargs.get("size")
+        if not isinstance(sz, Sym) or sz.k != "int":
+            return False
+        if not (f.get("buffered") is True and f.get("_gen") == self.gen and is_partial_next(out.st, f.get("_next"), ev[0].result)
+                and self.gen_untouched(out) and self.only_written(out, {"buffered", "_next"})):
+            return False
+        return sz.t == self.size.t
+
+    posts = [("guard", p_guard), ("enable", p_enable)]
+
+
+class StreamNext(StreamObj):
+    """__next__ returns the next item of whatever `_next` is bound to (the generator itself when
+    unbuffered, the chunk generator when buffered): iterating a stream yields that sequence in order"""
+    target = "jinja2.environment:TemplateStream.__next__"
+
+    def __init__(self):
+        VC.__init__(self, "C10", "C10.TemplateStream.__next__")
+
+    def setup(self, I, st):
+        self.X = A.sseq(st, "X", "str")
+        self.kx = z3.Int("xcursor0")
+        st.assume(0 <= self.kx, self.kx <= self.X.n)
+        self.src = st.alloc(HIter(self.X, Sym(self.kx, "int"), tag="generator"), initial=True)
+        p = st.alloc(HObj(functools.partial, fields={"func": next, "args": (self.src,)}), initial=True)
+        self.mk_stream(st, buffered=sym("buffered", "bool"), _next=p)
+        return [self.stream], {}
+
+    def p_next(self, pre, out):
+        cur = to_term(out.st.get(self.src).cursor, "int")
+        if not (self.gen_untouched(out) and self.only_written(out, set())):
+            return False
+        if out.raised:
+            if out.value.cls is not StopIteration:
+                return False
+            return z3.And(self.kx == self.X.n, cur == self.kx)
+        v = out.value
+        if not (isinstance(v, Sym) and v.k == "str"):
+            return False
+        return z3.And(self.kx < self.X.n, v.t == z3.Select(self.X.arr, self.kx), cur == self.kx + 1)
+
+    posts = [("next", p_next)]
+# =====================================================================================
+# TemplateStream.dump
+# =====================================================================================
+
+from pyvc.smt import str2obj  # noqa: E402
+
+ENC = z3.Function("str_encode", S_, Obj, Obj, Obj)  # x.encode(encoding, errors)
+ArrO = z3.ArraySort(I_, Obj)
+
+
+def seq_obj(seqv, j):
+    x = z3.Select(seqv.arr, j)
+    return str2obj(x) if seqv.k == "str" else x
+
+
+class Dump(C10VC):
+    """dump(fp, encoding, errors) over the abstract item sequence S of the stream.
+    File model: an object with abstract content (a list); write(x) appends x, writelines(it)
+    appends the items of it in order, both may fail with OSError; open(path, mode) gives a new
+    empty file with writelines or fails with OSError; x.encode(e, r) is an uninterpreted function
+    that may fail with UnicodeError."""
+    target = "jinja2.environment:TemplateStream.dump"
+    timeout_quick = 20000
+
+    def __init__(self, kind, with_encoding):
+        self.kind, self.with_encoding = kind, with_encoding
+        VC.__init__(self, "C10", f"C10.TemplateStream.dump[{kind},{'encoding' if with_encoding else 'no encoding'}]")
+
+    def native_family(self):
+        for pat in PATTERNS:
+            for enc, errors in ((None, "strict"), (None, "replace"), ("utf-8", "strict"), ("ascii", "replace"),
+                                ("utf-16-le", "strict"), ("ascii", "strict")):
+                if (enc is not None) != self.with_encoding:
+                    continue
+                for buffered in (False, True):
+                    for na in (False, True, "surrogate"):
+                        yield {"entry": "dump", "pattern": pat, "target": self.kind, "encoding": enc, "errors": errors,
+                               "buffered": buffered, "size": 2, "nonascii": na}
+
+    # ---- file model ------------------------------------------------------------------------
+    def content(self, st, f):
+        return st.get(st.get(f).fields["content"])
+
+    def configure(self, I):
+        c = self
+        orig = I.as_sseq
+
+        def as_sseq(st, v, node):
+            if isinstance(v, Ref) and v == c.stream:
+                return c.S  # iterating the stream yields its items (C10.TemplateStream.__next__)
+            return orig(st, v, node)
+
+        I.as_sseq = as_sseq
+
+        def fail(st, name, args, node, cls=OSError):
+            s = st.fork()
+            e = Exc(cls, (), tag=name, origin=getattr(node, "lineno", None))
+            A.call_event(s, name, args, {}, e, node)
+            return (s, Raised(e))
+
+        def open_spec(I_, st, args, kwargs, node):
+            out = [fail(st, "open", args, node)]
+            cont = st.alloc(HList(arr=z3.Const(fresh_name("newfile"), ArrO), n=z3.IntVal(0), k="obj"))
+            f = st.alloc(HObj(_FileWL, fields={"content": cont}))
+            st.ghost["file"] = f
+            st.trace.append(Event("call", "open", args, kwargs, f, lineno=getattr(node, "lineno", None)))
+            out.append((st, f))
+            return out
+
+        I.specs[("fn", id(open))] = open_spec
+
+        def write(I_, st, args, kwargs, node):
+            f, x = args
+            out = [fail(st, "write", args, node)]
+            h = c.content(st, f)
+            h.arr = z3.Store(h.arr, h.n, to_term(x, "obj"))
+            h.n = h.n + 1
+            A.call_event(st, "write", args, kwargs, None, node)
+            out.append((st, None))
+            return out
+
+        def writelines(I_, st, args, kwargs, node):
+            f, it = args
+            seqv = I_.as_sseq(st, it, node)
+            s1, r1 = fail(st, "writelines", args, node)
+            h1 = c.content(s1, f)  # a failing writelines may have written a part
+            h1.arr, h1.n = z3.Const(fresh_name("partial"), ArrO), z3.Int(fresh_name("partial_n"))
+            h = c.content(st, f)
+            na = z3.Const(fresh_name("wl"), ArrO)
+            j = z3.Int(fresh_name("j"))
+            st.assume(z3.ForAll([j], z3.Implies(z3.And(0 <= j, j < h.n), z3.Select(na, j) == z3.Select(h.arr, j))))
+            st.assume(z3.ForAll([j], z3.Implies(z3.And(0 <= j, j < seqv.n), z3.Select(na, h.n + j) == seq_obj(seqv, j))))
+            h.arr, h.n = na, h.n + seqv.n
+            A.call_event(st, "writelines", args, kwargs, None, node)
+            return [(s1, r1), (st, None)]
+
+        def close(I_, st, args, kwargs, node):
+            A.call_event(st, "close", args, kwargs, None, node)
+            return [(st, None)]
+
+        I.specs["_FileWL.write"] = write
+        I.specs["_FileNoWL.write"] = write
+        I.specs["_FileWL.writelines"] = writelines
+        I.specs["_FileWL.close"] = close
+        I.specs["_FileNoWL.close"] = close
+
+        def encode(I_, st, args, kwargs, node):
+            x = args[0]
+            enc = args[1] if len(args) > 1 else kwargs.get("encoding", "utf-8")
+            err = args[2] if len(args) > 2 else kwargs.get("errors", "strict")
+            s1 = st.fork()
+            e = Exc(UnicodeEncodeError, (), tag="encode", origin=getattr(node, "lineno", None))
+            v = Sym(ENC(to_term(x, "str"), to_term(enc, "obj"), to_term(err, "obj")), "obj")
+            return [(s1, Raised(e)), (st, v)]
+
+        I.specs["str.encode"] = encode
+
+        def inv(ctx):
+            st = ctx.st
+            f = st.ghost["file"]
+            h = c.content(st, f)
+            h0 = c.content(ctx.entry, f)
+            j = z3.Int(fresh_name("wj"))
+            return [
+                h.n == h0.n + ctx.k,
+                z3.ForAll([j], z3.Implies(z3.And(0 <= j, j < h0.n), z3.Select(h.arr, j) == z3.Select(h0.arr, j))),
+                z3.ForAll([j], z3.Implies(z3.And(0 <= j, j < ctx.k), z3.Select(h.arr, h0.n + j) == seq_obj(ctx.seq, j))),
+            ]
+
+        def heap(st, local):
+            h = c.content(st, st.ghost["file"])
+            h.arr, h.n = z3.Const(fresh_name("fc"), ArrO), z3.Int(fresh_name("fc_n"))
+
+        I.loops[("TemplateStream.dump", 0)] = LoopSpec(inv, havoc={}, heap=heap, name="write_loop")
+
+    # ---- pre-state -----------------------------------------------------------------------------
+    def setup(self, I, st):
+        self.S = A.sseq(st, "S", "str")
+        self.stream = A.obj(st, E.TemplateStream, "self")
+        self.errors = sym("errors", "str")
+        self.encoding = sym("encoding", "str") if self.with_encoding else None
+        # a str object is not the None object (the engine compares a str term with None through str2obj)
+        for v in (self.errors, self.encoding):
+            if v is not None:
+                st.assume(str2obj(v.t) != host_const(None))
+        if self.kind == "path":
+            self.fp = sym("path", "str")
+            self.file0 = None
+        else:
+            c0 = A.alist(st, "C0", "obj")
+            self.c0 = c0
+            h = st.get(c0)
+            self.c0_arr, self.c0_n = h.arr, h.n
+            self.fp = st.alloc(HObj(_FileWL if self.kind == "wl" else _FileNoWL, fields={"content": c0}), initial=True)
+            st.ghost["file"] = self.fp
+        return [self.stream, self.fp, self.encoding, self.errors], {}
+
+    # ---- postconditions --------------------------------------------------------------------------
+    def opened(self, out):
+        ev = A.calls(out, "open")
+        return [e.result for e in ev if isinstance(e.result, Ref)]
+
+    def p_open(self, pre, out):
+        """a path is opened once, for binary writing; a file object is used as it is"""
+        ev = A.calls(out, "open")
+        if self.kind != "path":
+            return not ev
+        if len(ev) != 1:
+            return False
+        bound = dict(zip(["file", "mode"], ev[0].args))
+        if len(ev[0].args) > 2 or set(bound) & set(ev[0].kwargs):
+            return False
+        bound.update(ev[0].kwargs)
+        return bound.keys() == {"file", "mode"} and bound["file"] is self.fp and bound["mode"] == "wb"
+
+    def p_close(self, pre, out):
+        """dump closes exactly the file it opened, on every path, after the last write; never a file it was given"""
+        cl = A.calls(out, "close")
+        op = self.opened(out)
+        if not op:
+            return not cl
+        if len(cl) != 1 or cl[0].args[0] != op[0]:
+            return False
+        names = [e.name for e in out.st.trace if e.kind == "call" and e.name in ("write", "writelines", "close")]
+        return names[-1] == "close"
+
+    def p_content(self, pre, out):
+        """on return the file holds what it held before followed by the (encoded) items, in order"""
+        if out.raised:
+            return None
+        if self.kind == "path":
+            op = self.opened(out)
+            if len(op) != 1:
+                return False
+            f, n0, arr0 = op[0], z3.IntVal(0), None
+        else:
+            f, n0, arr0 = self.fp, self.c0_n, self.c0_arr
+        h = self.content(out.st, f)
+        if self.with_encoding:
+            enc = str2obj(self.encoding.t)
+        elif self.kind == "path":
+            enc = str2obj(z3.StringVal("utf-8"))
+        else:
+            enc = None
+        j = z3.Int(fresh_name("pj"))
+        x = z3.Select(self.S.arr, j)
+        want = ENC(x, enc, str2obj(self.errors.t)) if enc is not None else str2obj(x)
+        fs = [h.n == n0 + self.S.n,
+              z3.ForAll([j], z3.Implies(z3.And(0 <= j, j < self.S.n), z3.Select(h.arr, n0 + j) == want))]
+        if arr0 is not None:
+            fs.append(z3.ForAll([j], z3.Implies(z3.And(0 <= j, j < n0), z3.Select(h.arr, j) == z3.Select(arr0, j))))
+        return z3.And(*fs)
+
+    def p_exceptions(self, pre, out):
+        """dump adds no failure of its own"""
+        if out.returned:
+            return True
+        return out.value.tag in ("open", "write", "writelines", "encode")
+
+    posts = [("open", p_open), ("close", p_close), ("content", p_content), ("exceptions", p_exceptions)]
+
+
+DUMPS = [Dump(k, e) for k in ("path", "wl", "nowl") for e in (False, True)]
+# =====================================================================================
+# tables, dependency-spec cross-check, bounded stand-ins (REAL code, never counted as proved)
+# =====================================================================================
+
+def table_concat(task, tier, seed):
+    """every `concat` the entry points use is the builtin "".join (the meaning of JOIN)"""
+    rs = []
+    for name, fn in (("Environment.concat", jinja2.Environment.__dict__.get("concat")),
+                     ("environment.concat", E.__dict__.get("concat")), ("utils.concat", U.__dict__.get("concat"))):
+        ok = (type(fn).__name__ == "builtin_function_or_method" and getattr(fn, "__name__", None) == "join"
+              and isinstance(getattr(fn, "__self__", None), str) and fn.__self__ == "")
+        rs.append(Res(f"C10.tables.concat_is_join[{name}]", "discharged" if ok else "refuted", "table", 0.0,
+                      "" if ok else f"{name} is {fn!r}, not ''.join", "table", None if ok else {"entry": "table", "name": name}))
+    return rs
+
+
+def replay_table(w):
+    rs = table_concat(None, "quick", 0)
+    bad = [r for r in rs if r.status == "refuted"]
+    return bool(bad), "; ".join(r.detail for r in bad) or "every concat is ''.join"
+
+
+def join_facts_crosscheck(task, tier, seed):
+    """the join facts assumed of JOIN / the definition of NE, checked on the real "".join"""
+    import random
+    rnd = random.Random(seed)
+    n = 300 if tier == "quick" else 5000
+    t0 = time.time()
+    alphabet = ["", "", "a", "bc", "é", "<x>", " "]
+    for _ in range(n):
+        a = [rnd.choice(alphabet) for _ in range(rnd.randrange(0, 9))]
+        p = rnd.randrange(0, len(a) + 1)
+        m = rnd.randrange(0, len(a) - p + 1)
+        b = a[p:p + m]
+        J = lambda k: "".join(a[:k])  # noqa: E731
+        ok = J(0) == "" and J(p) + "".join(b) == J(p + m) and all(J(k + 1) == J(k) + a[k] for k in range(len(a)))
+        ok = ok and E.concat(iter(a)) == J(len(a)) and jinja2.Environment.concat(x for x in a) == J(len(a))
+        if not ok:
+            return [Res("C10.spec.join_facts", "refuted", "native", time.time() - t0, f"join facts fail on {a!r}", "bounded", {"entry": "join", "a": a})]
+    task.bound_text = f"{n} random sequences of up to 8 pieces over {alphabet!r}"
+    task.stats = {"cases": n}
+    return [Res("C10.spec.join_facts", "bounded-ok", "native", time.time() - t0, f"{n} random sequences", "bounded")]
+
+
+def bounded_buffered(task, tier, seed):
+    """stand-in for C10.buffered on the real code: all inputs of up to L pieces (each empty or
+    non-empty), all sizes, through the public API (enable_buffering + iteration) and the generator"""
+    L, sizes = (7, range(2, 6)) if tier == "quick" else (11, range(2, 9))
+    t0 = time.time()
+    rs = []
+    cases = 0
+    for size in sizes:
+        bad = None
+        for n in range(0, L + 1):
+            for pat in itertools.product("01", repeat=n):
+                pattern = "".join(pat)
+                pieces = pieces_from_pattern(pattern)
+                cases += 1
+                s = E.TemplateStream(iter(list(pieces)))
+                s.enable_buffering(size)
+                chunks = list(itertools.islice(s, len(pieces) + 2))
+                d = chunk_oracle(pieces, size, chunks) or (None if chunks == native_buffered(pieces, size) else "public API and generator disagree")
+                if d:
+                    bad = ({"pattern": pattern, "size": size}, d)
+                    break
+            if bad:
+                break
+        if bad:
+            rs.append(Res(f"C10.bounded.buffered[size={size}]", "refuted", "native", time.time() - t0, bad[1], "bounded", bad[0]))
+        else:
+            rs.append(Res(f"C10.bounded.buffered[size={size}]", "bounded-ok", "native", time.time() - t0,
+                          f"all {2 ** (L + 1) - 1} inputs of up to {L} pieces", "bounded"))
+    task.bound_text = f"all input sequences of up to {L} pieces (each empty or non-empty), sizes {sizes.start}..{sizes.stop - 1}"
+    task.stats = {"cases": cases}
+    return rs
+
+
+E2E_TEMPLATES = {
+    "base.html": "<h>{% block title %}T{% endblock %}</h>{% block body %}base{{ x }}{% endblock %}",
+    "child.html": "{% extends 'base.html' %}{% block body %}child {{ super() }} {% for i in seq %}{{ i }},{% endfor %}{% endblock %}",
+    "inc.html": "[{{ x }}|{% if y %}{{ y }}{% endif %}]",
+    "lib.html": "{% macro m(a) %}<{{ a }}>{% endmacro %}lib-top",
+    "main.html": "{% import 'lib.html' as lib %}{% include 'inc.html' %}{{ lib.m(x) }}{% for i in seq %}{% include 'inc.html' %}{{ '' }}{% endfor %}",
+    "empty.html": "",
+    "text.html": "just text é€",
+    "empties.html": "{{ '' }}{{ '' }}x{{ '' }}{{ y }}{{ '' }}",
+    "only_empties.html": "{% for i in seq %}{{ '' }}{% endfor %}",
+    "loop.html": "{% for i in seq %}{{ i }}{% if not loop.last %}{{ y }}{% endif %}{% endfor %}",
+    "from.html": "{% from 'lib.html' import m %}{{ m(y) }}{{ m(x) }}",
+}
+E2E_DATA = [
+    {"x": "é<", "y": "", "seq": []},
+    {"x": 1, "y": "Y", "seq": [1, 2, 3, "", "€", 6, 7]},
+]
+
+
+def e2e_case(name, data, sizes):
+    """-> None | description; every entry point on one real template"""
+    from jinja2 import DictLoader
+    env = jinja2.Environment(loader=DictLoader(E2E_TEMPLATES))
+    t = env.get_template(name)
+    text = t.render(data)
+    if t.render(**data) != text:
+        return "render(dict) != render(**kwargs)"
+    pieces = list(t.generate(data))
+    if "".join(pieces) != text:
+        return f"generate: {''.join(pieces)!r} != render {text!r}"
+    if list(t.stream(data)) != pieces:
+        return "unbuffered stream differs from generate"
+    for size in sizes:
+        s = t.stream(data)
+        s.enable_buffering(size)
+        chunks = list(s)
+        d = chunk_oracle(pieces, size, chunks)
+        if d:
+            return f"stream buffered({size}): {d}"
+        if "".join(chunks) != text:
+            return f"stream buffered({size}) text differs"
+    if str(t.make_module(data)) != text or str(t.make_module(data).__html__()) != text:
+        return "str(module) differs from render"
+    for size in (None,) + tuple(sizes[:2]):
+        for enc in (None, "utf-8"):
+            f = _FileWL() if size is None else _FileNoWL()
+            s = t.stream(data)
+            if size:
+                s.enable_buffering(size)
+            s.dump(f, enc)
+            got = f.items[1:]
+            j = b"".join(got).decode("utf-8") if enc else "".join(got)
+            if j != text or f.closed:
+                return f"dump(file object, encoding={enc}, buffer={size}) wrote {j!r}"
+        d = tempfile.mkdtemp(prefix="c10e2e")
+        try:
+            path = os.path.join(d, "o")
+            s = t.stream(data)
+            if size:
+                s.enable_buffering(size)
+            s.dump(path)
+            if open(path, "rb").read().decode("utf-8") != text:
+                return f"dump(path, buffer={size}) differs"
+        finally:
+            import shutil
+            shutil.rmtree(d, ignore_errors=True)
+    return None
+
+
+def bounded_e2e(task, tier, seed):
+    sizes = tuple(range(2, 9))
+    t0 = time.time()
+    rs = []
+    n = 0
+    for name in E2E_TEMPLATES:
+        for di, data in enumerate(E2E_DATA):
+            n += 1
+            try:
+                d = e2e_case(name, data, sizes)
+            except Exception as ex:  # noqa
+                d = f"crash {ex!r}"
+            nm = f"C10.bounded.entrypoints[{name},data{di}]"
+            if d:
+                rs.append(Res(nm, "refuted", "native", time.time() - t0, d, "bounded", {"entry": "e2e", "template": name, "data": di}))
+            else:
+                rs.append(Res(nm, "bounded-ok", "native", time.time() - t0, "render = generate = stream(2..8) = dump = str(module)", "bounded"))
+    task.bound_text = (f"{len(E2E_TEMPLATES)} real templates (extends/include/import/from-import/loops/empty pieces) x {len(E2E_DATA)} data sets, "
+                       "buffer sizes 2..8, text and utf-8 dump targets, file objects and paths")
+    task.stats = {"cases": n}
+    return rs
+
+
+def replay_bounded(w):
+    if w.get("entry") == "e2e":
+        d = e2e_case(w["template"], E2E_DATA[w["data"]], tuple(range(2, 9)))
+        return d is not None, d or "all entry points agree"
+    if w.get("entry") == "join":
+        a = w["a"]
+        ok = all("".join(a[:k + 1]) == "".join(a[:k]) + a[k] for k in range(len(a)))
+        return (not ok), "join facts"
+    pieces = pieces_from_pattern(w["pattern"])
+    size = int(w["size"])
+    s = E.TemplateStream(iter(list(pieces)))
+    s.enable_buffering(size)
+    chunks = list(itertools.islice(s, len(pieces) + 2))
+    d = chunk_oracle(pieces, size, chunks)
+    return (d is not None, f"enable_buffering({size}) over {pieces!r} -> {chunks!r}: {d or 'as specified'}")
+
+
+TASKS = (
+    [BufferedGenerator()]
+    + [Render(a, k) for a, k in SHAPES] + [Generate(a, k) for a, k in SHAPES] + [Stream(a, k) for a, k in SHAPES]
+    + [NewContext(), MakeModule(), ModuleInitGiven(), ModuleText("__str__"), ModuleText("__html__"),
+       StreamInit(), DisableBuffering(), EnableBuffering(), StreamNext()]
+    + DUMPS
+    + [FnTask("C10", "C10.tables.concat_is_join", table_concat, "table", replay_table),
+       FnTask("C10", "C10.spec.join_facts", join_facts_crosscheck, "bounded", replay_bounded),
+       FnTask("C10", "C10.bounded.buffered", bounded_buffered, "bounded", replay_bounded),
+       FnTask("C10", "C10.bounded.entrypoints", bounded_e2e, "bounded", replay_bounded)]
+)
 
 META = {
     "level": "proof",
-    "explanation": "",
-    "assumptions": [],
-    "trusted_base": [],
+    "explanation": (
+        "Every rendering entry point is put under contract on its real source with the root render function as an abstract callee "
+        "returning an iterator over a symbolic sequence R of strings of arbitrary length: render returns environment.concat(R(ctx0)), "
+        "generate's concatenation is JOIN(R(ctx0)), stream is an unbuffered TemplateStream over generate with identical arguments, "
+        "make_module/TemplateModule store list(R(ctx)) and __str__/__html__ concatenate it, with ctx0 = new_context(dict(*args, **kwargs)) "
+        "in all of them; TemplateStream.__next__/enable_buffering/disable_buffering/__init__ are proved against the iterator protocol. "
+        "C10.buffered is unbounded: _buffered_generator (real source, two nested while loops, try/except StopIteration as control flow, "
+        "yield recorded in a ghost chunk table) is proved with loop invariants for every input sequence, every size >= 1: the chunks are "
+        "contiguous segments starting at 0, each the join of its segment, all but the last with exactly `size` non-empty pieces, the last "
+        "with 1..size, the uncovered tail consists of empty strings, and the concatenation of the chunks is the concatenation of the "
+        "input. dump is proved (loop invariant on the write loop) to write the (encoded) items in order after the prior content and to "
+        "close exactly the file it opened on every path. Paper lemma: when R is a function of the context (C29/C30) all five texts equal "
+        "JOIN(R(ctx0)). Partial correctness only (termination of the buffering loop is not an obligation; the bounded stand-in runs the "
+        "real generator). Bounded stand-ins on the real code are reported separately."),
+    "assumptions": [
+        "A7: generators are modelled by the sequence they yield; an exception of the render function surfaces where the consumer drives it",
+        "call shapes of render/generate/stream: 0..1 positional and 0..2 keyword arguments with symbolic values (the code passes *args/**kwargs through verbatim)",
+        "the Context returned by new_context belongs to the environment passed to it (contract of runtime.new_context / Context.__init__)",
+        "file model of dump: write appends, writelines appends in order, both may raise OSError; open gives a new empty file with writelines or raises OSError; str.encode is an uninterpreted function that may raise UnicodeError (raised eagerly in the model)",
+        "generate()/render() in async mode belong to C09.entry (render's delegation to asyncio.run(render_async(...)) is checked here; generate is checked in sync mode)",
+        "partial correctness: termination is not proved",
+    ],
+    "trusted_base": [
+        "z3 / cvc5", "pyvc symbolic executor (del lst[:] == lst.clear())",
+        "dependency spec: ''.join as JOIN with join([])='', join(X+[x]) = join(X)+x, join(X+Y) = join(X)+join(Y) (cross-checked natively: C10.spec.join_facts)",
+        "dependency spec: functools.partial(f, a)() == f(a)", "dependency spec: next()/StopIteration on iterators, list(iterator), list.append/clear",
+        "dependency spec: dict(*args, **kwargs) as an opaque function of its arguments",
+        "dependency spec: markupsafe.Markup(s) is a Markup string with the text of s",
+    ],
 }
